@@ -7,7 +7,13 @@ WT="/tmp/$NAME"; OUT="/verif/seeded/$NAME"; mkdir -p "$OUT"
 PP="/tmp/seedenv/shims:$(cd $WT && ls -d packages/*/src | sed "s#^#$WT/#" | tr '\n' ':')$WT/src"
 cd "$WT" || exit 2
 DEMO=demo.py; [ -f demo.py ] || DEMO=$(ls test_demo*.py demo*.py 2>/dev/null | head -1)
-git -C "$WT" diff --quiet && git -C "$WT" apply patch.diff
+# bring the worktree to /repo's current HEAD first (fix commits made since the seed was written), then apply the seed
+HEAD=$(git -C /repo rev-parse HEAD)
+if [ "$(git -C "$WT" rev-parse HEAD)" != "$HEAD" ]; then
+  git -C "$WT" diff --quiet || git -C "$WT" apply -R patch.diff
+  git -C "$WT" checkout -q --detach "$HEAD" || { echo "$NAME cannot move worktree to $HEAD"; exit 2; }
+fi
+if git -C "$WT" diff --quiet; then git -C "$WT" apply patch.diff || { echo "$NAME patch does not apply on current HEAD $HEAD"; exit 3; }; fi
 ( cd "$WT" && PYTHONPATH="$PP" timeout 600 /venv/bin/python $DEMO >/tmp/$NAME.with.log 2>&1 ); WITH=$?
 git -C "$WT" apply -R patch.diff
 ( cd "$WT" && PYTHONPATH="$PP" timeout 600 /venv/bin/python $DEMO >/tmp/$NAME.without.log 2>&1 ); WITHOUT=$?
